@@ -35,6 +35,19 @@ HAND = [
     {"definitions": {"Headers": {"type": "object", "properties": {"Content-Type": {"type": "string"}, "retries": {"type": "integer"}},
                                  "additionalProperties": {"type": "string"}},
                      "Request": {"type": "object", "properties": {"headers": {"$ref": "#/definitions/Headers", "default": {"Content-Type": "text/plain", "retries": 3, "X-Trace": "on"}}}}}},
+    # a default on a member of every container kind, empty and non-empty (an explicitly empty container is not an absent member)
+    {"definitions": {"Dc": {"type": "object", "required": ["name"], "properties": {
+        "name": {"type": "string"},
+        "labels": {"type": "object", "additionalProperties": {"type": "string"}, "default": {"tier": "standard"}},
+        "counts": {"type": "object", "additionalProperties": {"type": "integer"}, "default": {}},
+        "plain": {"type": "object", "additionalProperties": {"type": "string"}},
+        "tags": {"type": "array", "items": {"type": "string"}, "default": ["a", "b"]},
+        "none": {"type": "array", "items": {"type": "string"}, "default": []},
+        "uniq": {"type": "array", "items": {"type": "integer"}, "uniqueItems": True, "default": [1, 2]},
+        "opt": {"type": ["string", "null"], "default": "x"},
+        "nul": {"type": ["integer", "null"], "default": None},
+        "flag": {"type": "boolean", "default": True},
+        "inner": {"type": "object", "properties": {"a": {"type": "integer"}, "b": {"type": "array", "items": {"type": "integer"}}}, "default": {"a": 1}}}}}},
 ]
 
 def file_documents():
